@@ -156,6 +156,7 @@ def run(P, R, tier):
     _common.forward(P, R, 'C16', ['C16.a'], 'C09.a', '(S10) dask identifies the input frames by token: whatever reads an array\'s raw buffers (a tokeniser included) applies its offset/length, or equal-length slices of one parent collapse into one collection',
                     floor=0, only=lambda o: o.status == 'violated' or 'raw' in (o.detail or ''))
     _common.forward(P, R, 'C12', ['C12.i'], 'C09.a', 'the frame total bounds are reduced from cached partition bounds only when EVERY dataset has them', floor=0)
+    _common.forward(P, R, 'C13', ['C13.c'], 'C09.a', 'the boxes of point rows are the points themselves, masked by the validity bitmap (missing rows have no box)', floor=3)
     _common.forward(P, R, 'C06', ['C06.f'], 'C09.a', '(S10) the frame that is packed is the frame that was given: dask identifies it by the token of its columns', floor=1)
     _common.forward(P, R, 'C06', ['C06.d'], 'C09.a', 'the active geometry and the cached partition bounds the frame-level total bounds are reduced from', floor=4)
     _common.forward(P, R, 'C13', ['C13.a', 'C13.b'], 'C09.a', 'each partition\'s total_bounds (and each row\'s bounds) are the extents of exactly its own rows', floor=10)
